@@ -1,5 +1,297 @@
-/- Driver for C17 (stub until the property's model is written). -/
+/- Driver for C17.  Reads the lines of harness/c17_quote.c (Q, P) and harness/c17_inject.c (C, I), runs
+   the Lean models on the same inputs (DISAGREE channel) and evaluates the property predicates on the
+   implementation's outputs (ORACLE channel).  See the harness files for the line formats. -/
 import Drv.Util
-open Drv
-def handle (st : Stats) (_line : String) : IO Stats := return { st with cases := st.cases + 1 }
-def main : IO Unit := runDriver handle
+import Nq.Quote
+import Nq.Token822
+import Nq.SmtpAddr
+import Nq.Inject
+import Nq.Spec.Addr
+
+open Nq Nq.Quote Nq.Token822 Nq.SmtpAddr Nq.Inject Nq.Spec.Addr Drv
+
+/-- qmail-smtpd configuration used by harness/c17_quote.c -/
+def smtpdCfg : SmtpAddr.Cfg := { liphost := some (str "lip.example"), ipme := [[127, 0, 0, 1], [0, 0, 0, 0]] }
+
+/-! ### token lists as text -/
+
+def tokStr : Tok → String
+  | .atom s => "a" ++ (if s.isEmpty then "" else hex s)
+  | .quote s => "q" ++ (if s.isEmpty then "" else hex s)
+  | .literal s => "l" ++ (if s.isEmpty then "" else hex s)
+  | .comment s => "c" ++ (if s.isEmpty then "" else hex s)
+  | .left => "<" | .right => ">" | .at => "@" | .comma => "," | .semi => ";" | .colon => ":" | .dot => "."
+
+def toksStr (ts : List Tok) : String := if ts.isEmpty then "-" else "/".intercalate (ts.map tokStr)
+
+def tokOfStr (s : String) : Option Tok :=
+  match s.toList with
+  | [] => none
+  | c :: r =>
+    let body : Option Bytes := if r.isEmpty then some [] else unhex (String.ofList r)
+    match c with
+    | 'a' => body.map .atom | 'q' => body.map .quote | 'l' => body.map .literal | 'c' => body.map .comment
+    | '<' => some .left | '>' => some .right | '@' => some .at | ',' => some .comma
+    | ';' => some .semi | ':' => some .colon | '.' => some .dot
+    | _ => none
+
+def toksOfStr (s : String) : Option (List Tok) :=
+  if s == "-" then some [] else (s.splitOn "/").mapM tokOfStr
+
+def optToksStr : Option (List Tok) → String
+  | some ts => toksStr ts
+  | none => "-"
+
+/-- callback addresses: '|'-separated, `e` = empty -/
+def gotStr (g : List (List Tok)) : String :=
+  if g.isEmpty then "-" else "|".intercalate (g.map (fun a => if a.isEmpty then "e" else toksStr a))
+
+def gotOfStr (s : String) : Option (List (List Tok)) :=
+  if s == "-" then some [] else (s.splitOn "|").mapM (fun a => if a == "e" then some [] else toksOfStr a)
+
+/-! ### expectations (E field) -/
+
+structure MBox where
+  loc : Bytes
+  host : Option Bytes
+  deriving Repr
+
+def mboxOfStr (s : String) : Option MBox :=
+  match s.splitOn "/" with
+  | [l, h] => match unhex l, (if h == "~" then some none else (unhex h).map some) with
+    | some l, some h => some { loc := l, host := h }
+    | _, _ => none
+  | _ => none
+
+def mboxesOfStr (s : String) : Option (List MBox) :=
+  if s.isEmpty then some [] else (s.splitOn ",").mapM mboxOfStr
+
+/-- `k=mb,mb;k=…` -/
+def expectOfStr (s : String) : Option (List (Char × List MBox)) :=
+  if s == "-" then some [] else
+  (s.splitOn ";").mapM (fun f => match f.toList with
+    | k :: '=' :: r => (mboxesOfStr (String.ofList r)).map (fun m => (k, m))
+    | _ => none)
+
+def hexList (s : String) : Option (List Bytes) :=
+  if s == "-" then some [] else (s.splitOn ",").mapM (fun x => if x == "e" then some [] else unhex x)
+
+def hexListStr (l : List Bytes) : String :=
+  if l.isEmpty then "-" else ",".intercalate (l.map (fun b => if b.isEmpty then "e" else hex b))
+
+def optHex (s : String) : Option (Option Bytes) := if s == "~" then some none else (unhex s).map some
+
+def sortBytes (l : List Bytes) : List Bytes := (l.toArray.qsort (fun a b => decide (a < b))).toList
+
+/-! ### line handlers -/
+
+def note (st : Stats) (key : Bytes) (nontriv : Bool) : Stats :=
+  let h := hashBytes key
+  let fresh := !st.seen.contains h
+  { st with cases := st.cases + 1, seen := st.seen.insert h,
+            nontrivial := st.nontrivial + (if fresh && nontriv then 1 else 0) }
+
+def disagree (st : Stats) (msg : String) : IO Stats := do
+  IO.println s!"DISAGREE {msg}"
+  return { st with disagree := st.disagree + 1 }
+
+def oracleFail (st : Stats) (msg : String) : IO Stats := do
+  IO.println s!"ORACLE {msg}"
+  return { st with oracle := st.oracle + 1 }
+
+def handleQ (st : Stats) (f : List String) : IO Stats := do
+  match f with
+  | [lh, dh, needS, qh, q2h, prcS, toksS, uqh, mh, verbS, aprcS, addrh] =>
+    match unhex lh, unhex dh, unhex uqh, unhex addrh with
+    | some l, some d, some uq, some addr =>
+      let a := l ++ [AT] ++ d
+      let need := quoteNeed l
+      let mut st := note st (81 :: a) need
+      st := st.bump (if need then "Q_quoted" else "Q_plain")
+      -- model
+      let mq2 := quote2 a
+      let mtoks := parse mq2
+      let mm := addrmangle a
+      let (mverb, marg) := match readLine (mailFromLine a) with
+        | some (ln, _) => splitCmd ln
+        | none => ([], [])
+      let mverbOk := lower mverb == str "mail"
+      let maddr := if mverbOk then addrparse smtpdCfg marg else none
+      let mline := s!"{if need then 1 else 0} {hex (quote l)} {hex mq2} {if mtoks.isSome then 1 else 0} {optToksStr mtoks} " ++
+        s!"{hex ((mtoks.map unquote).getD [])} {hex mm} {if mverbOk then 1 else 0} " ++
+        s!"{if !mverbOk then -1 else if maddr.isSome then 1 else 0} {hex (maddr.getD (if mverbOk then (localIp smtpdCfg (copyAddr 62 false false (stripRoute ((afterFirst 60 marg).getD [])))) else []))}"
+      let iline := s!"{needS} {qh} {q2h} {prcS} {toksS} {uqh} {mh} {verbS} {aprcS} {addrh}"
+      if mline != iline then
+        st ← disagree st s!"kind=Q in={lh} dom={dh} impl={iline} model={mline}"
+      -- oracle (1): header round trip, on the implementation's own quote2 / parse / unquote
+      if saneDomain d then
+        let shapeOk := match toksOfStr toksS with
+          | some ts => mailboxShape ts
+          | none => false
+        if !(prcS == "1" && uq == a && shapeOk) then
+          st ← oracleFail st s!"kind=Qheader in={lh} dom={dh} quote2={q2h} parse_rc={prcS} tokens={toksS} unquote={uqh} expected={hex a}"
+      -- oracle (2): SMTP round trip, on the implementation's own addrmangle / commands / addrparse
+      if smtpDomain d then
+        let expect : Option Bytes :=
+          if isLocalLiteral smtpdCfg d then
+            (if (l ++ [AT] ++ str "lip.example").length + 1 > 900 then none else some (l ++ [AT] ++ str "lip.example"))
+          else if a.length + 1 > 900 then none else some a
+        let ok := verbS == "1" && (match expect with
+          | some e => aprcS == "1" && addr == e
+          | none => aprcS == "0")
+        st := st.bump (if isLocalLiteral smtpdCfg d then "Q_localip" else if a.length + 1 > 900 then "Q_toolong" else "Q_smtp")
+        if !ok then
+          st ← oracleFail st s!"kind=Qsmtp in={lh} dom={dh} mangled={mh} verb={verbS} addrparse_rc={aprcS} addr={addrh} expected={(expect.map hex).getD "refused"}"
+      if st.samples < 2 && need && l.length ≥ 4 then
+        IO.println s!"SAMPLE Q local={lh} dom={dh} quote2={q2h} tokens={toksS} unquote={uqh} mangled={mh} addrparse={addrh}"
+        st := { st with samples := st.samples + 1 }
+      return st
+    | _, _, _, _ => disagree st s!"unparsable Q line"
+  | _ => disagree st s!"unparsable Q line"
+
+/-- an atom that survives unparse → parse: non-empty, only atom bytes, nothing that needs a backslash -/
+def cleanTok : Tok → Bool
+  | .atom s => !s.isEmpty && s.all (fun c => atomok c && !atomBad c)
+  | _ => true
+
+def handleP (st : Stats) (f : List String) : IO Stats := do
+  match f with
+  | [nS, sh, eS, prcS, toksS, uqh, uph, rc2S, toks2S, arcS, outS, gotS] =>
+    match unhex sh, nS.toNat? with
+    | some s, some n =>
+      let mut st := note st (80 :: n.toUInt8 :: s) (s.length > 3)
+      let mtoks := parse s
+      st := st.bump (if mtoks.isSome then "P_parsed" else "P_refused")
+      let mline := match mtoks with
+        | none => "0 - - - 0 - 0 - -"
+        | some ts =>
+          let up := unparse n ts
+          let r := addrlist id ts
+          let t2 := parse up
+          s!"1 {toksStr ts} {hex (unquote ts)} {hex up} {if t2.isSome then 1 else 0} {optToksStr t2} " ++
+          s!"{if r.ok then 1 else 0} {if r.ok then toksStr r.out else "-"} {gotStr r.got}"
+      let iline := s!"{prcS} {toksS} {uqh} {uph} {rc2S} {toks2S} {arcS} {outS} {gotS}"
+      if mline != iline then
+        st ← disagree st s!"kind=P in={sh} n={nS} impl={iline} model={mline}"
+      -- oracle (3): what unparse writes parses back to the same tokens (valid atoms only)
+      if prcS == "1" then
+        match toksOfStr toksS with
+        | some ts =>
+          if ts.all cleanTok then
+            st := st.bump "P_reparse_checked"
+            if !(rc2S == "1" && toks2S == toksS) then
+              st ← oracleFail st s!"kind=Preparse in={sh} n={nS} tokens={toksS} unparse={uph} reparse_rc={rc2S} reparse={toks2S}"
+        | none => st ← disagree st s!"kind=P unparsable tokens {toksS}"
+      -- oracle (5): on a generated RFC 822 list the callback sees exactly the listed mailboxes (right to left)
+      if eS != "X" then
+        match mboxesOfStr (if eS == "-" then "" else eS), gotOfStr gotS with
+        | some mbs, some got =>
+          st := st.bump "P_grammar_checked"
+          let want := mbs.reverse.map (fun m => match m.host with | some h => m.loc ++ [AT] ++ h | none => m.loc)
+          let have_ := got.map (fun a => unquote a.reverse)
+          if !(arcS == "1" && want == have_) then
+            st ← oracleFail st s!"kind=Pmailboxes in={sh} addrlist_rc={arcS} got={gotS} expected={hexListStr want}"
+        | _, _ => st ← disagree st s!"kind=P unparsable expectation {eS} / {gotS}"
+      if st.samples < 4 && eS != "X" && s.length > 40 then
+        IO.println s!"SAMPLE P n={nS} in={sh} tokens={toksS} unparse={uph} got={gotS}"
+        st := { st with samples := st.samples + 1 }
+      return st
+    | _, _ => disagree st "unparsable P line"
+  | _ => disagree st "unparsable P line"
+
+structure Clock where
+  starttime : Nat := 0
+  pid : Nat := 0
+  date : Bytes := []
+  stamp : Bytes := []
+
+/-- does some header field of the message have a comment between `<` and `>`?  (only used to label an
+oracle failure with the class of the known finding C17-angle-comment; it never decides a verdict) -/
+def commentInAngle : List Tok → Bool → Bool
+  | [], _ => false
+  | .left :: r, _ => commentInAngle r true
+  | .right :: r, _ => commentInAngle r false
+  | .comment _ :: r, inA => inA || commentInAngle r inA
+  | _ :: r, inA => commentInAngle r inA
+
+def angleComment (inp : Bytes) : Bool :=
+  (headerbody inp).fields.any (fun h => match parse h with
+    | some ts => commentInAngle ts false
+    | none => false)
+
+def hiddenFields : List Bytes := [str "bcc", str "resent-bcc", str "return-path", str "content-length"]
+
+def handleI (clk : Clock) (st : Stats) (f : List String) : IO Stats := do
+  match f with
+  | [flagsS, stratS, fsS, recS, envS, inh, eS, exS, sndh, rcpS, msgh, ex2S, rcp2S] =>
+    let envF := (envS.splitOn ",").map optHex
+    match unhex inh, hexList recS, (if fsS == "N" then some none else (unhex fsS).map some), envF, unhex sndh, hexList rcpS, unhex msgh, hexList rcp2S with
+    | some inp, some args, some fs, [some user, some host, some shost, some suser, some name, some dd, some dh, some pd, some idh],
+      some snd, some rcps, some msg, some rcps2 =>
+      let flags : Bytes := if flagsS == "-" then [] else flagsS.toUTF8.toList
+      let strat := match stratS.toList.head? with | some 'a' => 2 | some 'h' => 3 | some 'H' => 4 | _ => 1
+      let queue := !(stratS.toList.contains 'n')
+      let env : Env := {
+        flags := flags, mailhost := host, shost := shost, mailuser := user.getD (str "anonymous"),
+        suser := suser, fullname := name, defaultdomain := dd.getD (str "defaultdomain"),
+        defaulthost := dh.getD (str "defaulthost"), plusdomain := pd.getD (str "plusdomain"), idhost := idh.getD (str "idhost"),
+        date := clk.date, stamp := clk.stamp, starttime := clk.starttime, pid := clk.pid }
+      let a : Args := { strategy := strat, queue := queue, fsender := fs, recips := args }
+      let mut st := note st (73 :: (flags ++ stratS.toUTF8.toList ++ inp ++ args.flatten)) (eS != "X" && eS != "-")
+      st := st.bump ("I_exit" ++ exS)
+      st := st.bump ("I_strategy_" ++ stratS)
+      let r := inject env a inp
+      let agree := if exS != "0" then exS == toString r.exit
+        else r.exit == 0 && r.sender == snd && r.recips == rcps && r.msg == msg
+      if !agree then
+        st ← disagree st s!"kind=I flags={flagsS} strat={stratS} f={fsS} args={recS} env={envS} in={inh} impl={exS} {sndh} {rcpS} {msgh} model={r.exit} {hex r.sender} {hexListStr r.recips} {hex r.msg}"
+      if exS == "0" && queue then
+        -- the second run (the produced message injected again with -h)
+        let r2 := inject env { strategy := 3 } msg
+        if !(ex2S == toString r2.exit && (r2.exit != 0 || r2.recips == rcps2)) then
+          st ← disagree st s!"kind=I2 env={envS} in={msgh} impl={ex2S} {rcp2S} model={r2.exit} {hexListStr r2.recips}"
+        -- oracle (7): no Bcc / Resent-Bcc / Return-Path / Content-Length field in the produced header
+        let names := fieldNames msg
+        if names.any (fun n => hiddenFields.contains n) then
+          st ← oracleFail st s!"kind=Ihidden flags={flagsS} strat={stratS} in={inh} message={msgh}"
+        if eS != "X" then
+          match expectOfStr eS with
+          | some ex =>
+            let spec : RwSpec := { defaulthost := env.defaulthost, defaultdomain := env.defaultdomain, plusdomain := env.plusdomain }
+            let rw := fun (m : MBox) => rewriteMailbox spec m.loc m.host
+            let of := fun (ks : List Char) => ((ex.filter (fun p => ks.contains p.1)).map (fun p => p.2.map rw)).flatten
+            let resent := ex.any (fun p => ['T', 'C', 'B', 'r'].contains p.1)
+            let hdr := if resent then of ['T', 'C', 'B'] else of ['t', 'c', 'b', 'a']
+            let useArgs := strat == 2 || strat == 4 || (strat == 1 && !args.isEmpty)
+            let useHdr := strat == 3 || strat == 4 || (strat == 1 && args.isEmpty)
+            let want := (if useArgs then of ['A'] else []) ++ (if useHdr then hdr else [])
+            st := st.bump (if resent then "I_resent" else "I_plain")
+            -- oracle (6): envelope recipients = listed mailboxes after the documented rewriting (as a multiset)
+            if sortBytes want != sortBytes rcps then
+              st ← oracleFail st s!"kind=Irecipients{if angleComment inp then " class=angle-comment" else ""} flags={flagsS} strat={stratS} f={fsS} args={recS} env={envS} in={inh} E={eS} recipients={rcpS} expected={hexListStr want}"
+            -- oracle (8): the rewritten header parses again to the same (visible) addresses
+            let want2 := if resent then of ['T', 'C'] else of ['t', 'c', 'a']
+            if !(ex2S == "0" && sortBytes want2 == sortBytes rcps2) then
+              st ← oracleFail st s!"kind=Ireparse{if angleComment inp then " class=angle-comment" else ""} flags={flagsS} strat={stratS} env={envS} in={inh} E={eS} message={msgh} recipients2={rcp2S} expected={hexListStr want2}"
+          | none => st ← disagree st s!"kind=I unparsable expectation {eS}"
+      if st.samples < 6 && eS != "X" && eS != "-" && exS == "0" && inp.length > 60 then
+        IO.println s!"SAMPLE I flags={flagsS} strat={stratS} args={recS} in={inh} sender={sndh} recipients={rcpS} message={msgh}"
+        st := { st with samples := st.samples + 1 }
+      return st
+    | _, _, _, _, _, _, _, _ => disagree st "unparsable I line"
+  | _ => disagree st s!"unparsable I line ({f.length} fields)"
+
+def handle (clk : IO.Ref Clock) (st : Stats) (line : String) : IO Stats := do
+  match fields line with
+  | "Q" :: f => handleQ st f
+  | "P" :: f => handleP st f
+  | "I" :: f => handleI (← clk.get) st f
+  | ["C", t, p, d, s] =>
+    clk.set { starttime := t.toNat?.getD 0, pid := p.toNat?.getD 0, date := (unhex d).getD [], stamp := (unhex s).getD [] }
+    return st
+  | [] => return st
+  | _ => disagree st s!"unparsable line {line.take 200}"
+
+def main : IO Unit := do
+  let clk ← IO.mkRef ({} : Clock)
+  runDriver (handle clk)
